@@ -730,6 +730,14 @@ class Engine:
             return self.str_join(st, recv, args[0])
         if name == 'isidentifier':
             return VBool(z3.Function('$isidentifier', S, B)(s))
+        if name in ('lower', 'upper') and not args:
+            lit = recv.lit()
+            if lit is not None:
+                return from_py(getattr(lit, name)())
+            # uninterpreted (the same symbol in code and in clauses); only its length is known
+            r = z3.Function('$str_' + name, S, S)(s)
+            st.assume(z3.Length(r) == z3.Length(s)) if name == 'lower' else None
+            return VStr(r)
         if name == 'lstrip':
             # result = s[k:], k = length of the longest prefix made of the strip characters
             if args:
